@@ -194,7 +194,7 @@ def check(ctx: Ctx):
     if C.want(ctx, 'R07.4'):
         ctx.rule('R07.4', 'every image lies inside the box: cube bound (R05.2) and affine map (R05.3), re-run here')
         evo.rule_cube_bound(ctx, 'R07.4')
-        evo.rule_affine(ctx, 'R07.4')
+        evo.rule_affine(ctx, 'R07.4', which=('P2D',))
         evo.rule_bounds_binding(ctx, 'R07.4')
     ctx.assume('NOT DECIDED: __CalculateNode enumerates each of the 2^N sub-cells exactly once per orientation state')
     ctx.note('C08 (not claimed): the nesting half of C08 follows from R05.2/R07.2 - the level body reads neither the '
